@@ -17,7 +17,12 @@ RULE = ("enumerated month stream: starts on day 1/28/29/30/31 of every month of 
         "a start that is a whole number of days/weeks/months before or after a wall probe inside/around the gap/overlap, so that the calendar result lands there "
         "(add, subtract, + Duration, - Duration, + (-d), subtract(components)); random integer tuples (years, months up to 1e4, weeks, days up to 1e5, h, m, s, us, either sign) "
         "over Date / naive / fixed-offset / named zones; Interval operands (+, -, + (-iv), subtract(components of iv)) and plain-timedelta operands; the inputs of the two repaired "
-        "findings (dt - Duration with days/weeks across an offset change, dt - Interval with years/months) as ordinary cases. non-trivial = distinct (entry, zone, start, amounts).")
+        "findings (dt - Duration with days/weeks across an offset change, dt - Interval with years/months) as ordinary cases; cancelling-units stream: calendar-unit arguments that CANCEL each other "
+        "(weeks=k, days=-7k; years=k, months=-12k; both; days=k, hours=-24k; non-cancelling controls) combined with time units (either sign, mixed signs, sub-second) whose wall-clock target lies "
+        "just past / inside / before a real gap or overlap (7 fixed zones incl. 30- and 45-minute offsets + 30 picked, 4 transitions each, 5 of 12 targets; quick ~1200 cases, thorough all zones x 10 transitions x 12), "
+        "through add / subtract / + Duration (constructor signature) / - Duration / + (-d) / subtract(components), plus the same tuples on naive, UTC, fixed-offset and Date values at month ends "
+        "(Feb 29, years 1 and 9999); inside the Coq model (dt_add with separate weeks and days; theorems add_cancelling_units_wall_clock, add_calendar_depends_on_totals). "
+        "non-trivial = distinct (entry, zone, start, amounts).")
 EXHAUSTIVE = {"quick": False, "thorough": False}
 TRUSTED = ["zoneinfo.ZoneInfo and the tzdata tables (specification side of the normalisation oracle, as in C02); calendar.monthrange and naive datetime + timedelta (specification side of the month step and shift)",
            "Interval operands are described to the model by the values of their accessors (years .. microseconds, _total) computed by a stdlib re-implementation in the harness and "
@@ -282,6 +287,91 @@ def _float_exact(a):
     return (rest % MEG == 0) or (abs(full) < TWO32 and abs(rest) < TWO32)
 
 
+# ----------------------------------------------------------------------------- calendar-unit arguments that CANCEL each other
+# (years, months, weeks, days, extra hours): every tuple names a calendar unit (so the call is a wall-clock call) although the folded amount is zero:
+# weeks vs days, years vs months (= -12k), both, and calendar units cancelled by TIME units (days=1, hours=-24: total shift zero);
+# the last rows are controls that do not cancel.
+CANCEL = [(0, 0, 1, -7, 0), (0, 0, -1, 7, 0), (0, 0, 2, -14, 0), (0, 0, -3, 21, 0), (0, 0, 52, -364, 0), (0, 0, -1000, 7000, 0),
+          (1, -12, 0, 0, 0), (-1, 12, 0, 0, 0), (2, -24, 0, 0, 0), (-3, 36, 0, 0, 0), (1, -12, 1, -7, 0), (-2, 24, -2, 14, 0), (1, -12, -1, 7, 0),
+          (0, 0, 0, 1, -24), (0, 0, 0, -2, 48), (0, 0, 1, 0, -168), (0, 0, -1, 0, 168), (1, -12, 0, 1, -24), (0, 0, 1, -6, -24), (1, -11, 0, -31, 0),
+          (0, 0, 1, -6, 0), (0, 0, -1, 8, 0), (1, -11, 0, 0, 0), (0, 0, 0, 0, 0)]
+# time units (h, m, s, us) moved across the offset change: longer than most gaps/overlaps, mixed signs inside one tuple, sub-second
+CANCEL_TIMES = [(2, 0, 0, 0), (-2, 0, 0, 0), (3, 15, 0, 0), (-3, -15, 0, 0), (0, 90, 0, 0), (0, -90, 0, 0), (26, 0, 0, 0), (-26, 0, 0, 0),
+                (0, 0, 5400, 1), (0, 0, -5400, -1), (1, -30, 0, 0), (-1, 30, 0, 0), (0, 0, 45, 0), (0, 0, -45, 0), (0, 0, 0, 7200 * MEG + 1), (0, 0, 0, -7200 * MEG - 1),
+                (4, 0, -1, 999999), (-4, 0, 1, -999999), (0, 0, 0, 0)]
+CANCEL_ZONES = ["Europe/Paris", "America/New_York", "Australia/Lord_Howe", "America/St_Johns", "Asia/Kathmandu", "Pacific/Apia", "Africa/Casablanca"]
+CANCEL_ENTRIES = ["add", "subtract", "plus", "add", "subtract", "minus", "add", "plus_neg", "subtract", "sub_comp", "plus"]
+
+
+def _cancel_cases(rnd, quick, zs, seed):
+    """Starts placed so that the wall-clock target of the TIME units lies on the other side of (or inside) a gap / overlap while the calendar
+    units cancel: there the wall-clock result and the elapsed-time result differ by the offset change."""
+    out = []
+    stream = "cancelling-units"
+    k = seed
+    # literals: one hour and a half before the Paris gap / overlap of 2013, New York 2021, Lord Howe (30 minutes) 2022
+    lits = [("Europe/Paris", (2013, 3, 31, 1, 30), [0, 0, 1, -7, 2, 0, 0, 0]), ("Europe/Paris", (2013, 3, 31, 1, 30), [0, 0, -1, 7, 3, 15, 0, 0]),
+            ("Europe/Paris", (2013, 10, 27, 1, 30), [0, 0, 2, -14, 2, 0, 0, 0]), ("America/New_York", (2021, 3, 14, 0, 30), [0, 0, -3, 21, 5, 0, 0, 0]),
+            ("America/New_York", (2021, 11, 7, 4, 0), [0, 0, 1, -7, -4, 0, 0, 0]), ("Australia/Lord_Howe", (2022, 10, 2, 1, 0), [0, 0, 1, -7, 3, 0, 5, 0]),
+            ("Europe/Paris", (2013, 3, 31, 1, 30), [1, -12, 0, 0, 2, 0, 0, 0]), ("Europe/Paris", (2013, 3, 31, 1, 30), [0, 0, 0, 1, -22, 0, 0, 0]),
+            ("Europe/Paris", (2013, 3, 31, 4, 30), [-1, 12, -1, 7, -2, 0, 0, 0]), ("Europe/Paris", (2013, 3, 30, 1, 30), [0, 0, 1, -6, 2, 0, 0, 0])]
+    for (name, st, a) in lits:
+        W0 = T.wall_of(_dt.datetime(*st))
+        for entry in ENTRY_CYCLE:
+            out.append(_mk(stream, entry, name, W0, 0, a))
+    names = [n for n in CANCEL_ZONES if n in set(zones.names())]
+    names += [n for n in zs if n not in names][: (30 if quick else len(zs))]
+    for name in names:
+        trs = T.transition_probes(name, rnd, per_zone=(4 if quick else 10))
+        for (tt, o_pre, o_post) in trs:
+            a0 = (tt + T.EPOCH_S + min(o_pre, o_post)) * MEG
+            b0 = (tt + T.EPOCH_S + max(o_pre, o_post)) * MEG
+            # wall targets of the whole call: just past the region (both results exist and differ by the offset change), inside it, well past it,
+            # and before it (control when the start is on the same side)
+            tg = [b0, b0 + 1, b0 + MEG, b0 + 1800 * MEG, b0 + 3600 * MEG + 7, (a0 + b0) // 2, a0, a0 - 1, a0 - MEG, a0 - 1800 * MEG, a0 - 3600 * MEG - 7, b0 - 1]
+            if quick:
+                tg = [tg[(k + i * 5) % len(tg)] for i in range(5)]
+            for Wt in tg:
+                k += 1
+                y, mo, wk, d, xh = CANCEL[k % len(CANCEL)]
+                h, m, s, us = CANCEL_TIMES[(k // 2) % len(CANCEL_TIMES)]
+                a = [y, mo, wk, d, h + xh, m, s, us]
+                tot = td_us(wk, d, h + xh, m, s, us)
+                back = ref_cal(Wt, -y, -mo, -tot)
+                if back[0] != "ok":
+                    continue
+                W0 = back[1]
+                if ref_cal(W0, y, mo, tot) != ("ok", Wt):
+                    continue
+                f = (k // 3) % 2
+                if not _valid_start(name, W0, f):
+                    continue
+                entry = CANCEL_ENTRIES[(k // 5) % len(CANCEL_ENTRIES)]
+                if entry not in ("add", "subtract") and not _float_exact(a):
+                    entry = "add"
+                c = _mk(stream, entry, name, W0, f, a)
+                if _aware_ok(c):
+                    out.append(c)
+    # the same tuples on values without offset changes (naive, UTC, fixed offset, Date): every month end incl. Feb 29 (years vs months must not clamp)
+    for (Y, M, D) in [(2024, 2, 29), (2023, 1, 31), (2023, 12, 31), (2100, 2, 28), (2000, 2, 29), (1, 1, 1), (9999, 12, 31), (2024, 3, 31)]:
+        W0 = T.wall_of(_dt.datetime(Y, M, D, 22, 30, 15, 250000))
+        for i, (y, mo, wk, d, xh) in enumerate(CANCEL):
+            k += 1
+            h, m, s, us = CANCEL_TIMES[k % len(CANCEL_TIMES)]
+            a = [y, mo, wk, d, h + xh, m, s, us]
+            entry = ENTRY_CYCLE[k % len(ENTRY_CYCLE)]
+            kind = (None, "UTC", "date", 19800, -12600)[k % 5]
+            if kind == "date":
+                out.append(_mk_date(stream, entry if entry in ("add", "subtract", "plus", "minus") else "add", W0, [y, mo, wk, d]))
+                continue
+            if Y in (1, 9999) and kind is not None:
+                kind = None
+            if entry not in ("add", "subtract") and not _float_exact(a):
+                entry = "add"
+            out.append(_mk(stream, entry, kind, W0, 0, a))
+    return out
+
+
 def cases(tier, seed):
     rnd = random.Random(seed)
     out = []
@@ -395,6 +485,8 @@ def cases(tier, seed):
                 out.append(_mk("dst-target", entry, name, W0, f, a))
                 if k % 4 == 0:
                     out.append(_mk("dst-target", "minus", name, W0, f, a))
+    # ---- calendar units that cancel each other (weeks vs days, years vs months, days vs hours) with time units across offset changes
+    out.extend(_cancel_cases(rnd, quick, zs, seed))
     # ---- random integer tuples
     nrand = 6000 if quick else 150000
     zr = zs[:25] if quick else zs
@@ -777,6 +869,8 @@ LEVEL_TEXT = ("Machine-checked Coq theorems, for ALL integer amounts of either s
               "dt + Duration is add(**_signature); for every Duration d `dt - d == dt.subtract(**components of d) == dt + (-d)` (-d as Duration.__neg__ builds it, its own construction may raise), "
               "for an Interval `dt - iv == dt.subtract(**components) == dt + (the Interval with the negated components)`, and `dt - d` with a year/month/week/day component is the C02 normalisation of the "
               "wall-clock target (proved in full after the repair of DateTime._subtract_timedelta; the two former witnesses are theorems and ordinary cases of the correspondence). "
+              "Calendar-unit arguments that cancel each other (12*years+months = 0 and days+7*weeks = 0 with some unit non-zero) still move the time units on the wall clock followed by the C02 normalisation "
+              "(add_cancelling_units_wall_clock, subtract_cancelling_units_wall_clock), and a calendar call depends on its amounts only through 12*years+months and the total of the rest (add_calendar_depends_on_totals). "
               "The model is tied to /repo by translation of add_duration and correspondence on every month-length x sign x overflow combination and on results landing in real gaps/overlaps, both backends.")
 DESIGN_REF = "DESIGN.md section 4 C04"
 LEVEL_NOTE = ("Trusted: Coq kernel+VM; Spec/Zone.v, Spec/NativeDT.v, Spec/TdFloat.v as models of zoneinfo / naive datetime arithmetic / CPython floats (validated by correspondence); "
